@@ -103,6 +103,9 @@ def run(model, tier="quick"):
     from .C10 import ledgers as _ledgers, views as _views
     _ledgers(res, model, ["supply"])       # a top-up cannot change the collateral flag behind the health-factor check
     _views(res, model)                     # collateral / debt values use each side's own index
+    # constructors establish the relations between fields that the references above take for granted
+    from .ctor_refs import constructors
+    res.units["constructor_references"] = constructors(res, model, ('aave',))
     from ..rules.fresh import fresh_rule
     if "R-FRESH" not in res.rules:
         res.rules.append("R-FRESH")
